@@ -1,4 +1,211 @@
-(* C17 — placeholder while the proofs are being written *)
+(* C17 — FUSE manager's persistent record equals its live mounts across re-init / restart.
+   Statements only; every proof is [exact <lemma of Proofs/Fusemgr.v>].
+   Reachable states: [exec (init g e) os] for every code variant g (true = with patches/C17-fix-1.diff),
+   every set e of mountpoints the kernel lists without them being ours, and every history os of
+   Init (any failing stage / any restore failure script) / Mount / Check / Unmount (any backend outcome) /
+   Close / Restart (manager process killed and started again on the kept store file; since each RPC commits
+   at most one store transaction, as its last effect, a crash inside an RPC is a Restart before or after it).
+   serving s m  = some filesystem instance of the manager has m mounted;  recorded s m = the store has a record for m;
+   tracked s m  = the manager's table (fsMap) has an owner for m. *)
 From Coq Require Import List Arith Bool.
-From SV Require Import Model.Fusemgr.
+From SV Require Import Model.Fusemgr Proofs.Fusemgr.
 Import ListNotations.
+
+(* Clause 1. While the store is open: everything served is recorded; and once initialised, unless the last
+   Init of this process reported an error, everything recorded is served. *)
+Theorem C17_store_equals_live :
+  forall g e os, let s := exec (init g e) os in
+    closed s = false ->
+    (forall m, serving s m -> recorded s m)
+    /\ (stat s = Ready -> ierr s = false -> forall m, recorded s m -> serving s m).
+Proof. intros g e os s. exact (store_live s (reach_inv g e os)). Qed.
+Print Assumptions C17_store_equals_live.
+
+(* Clause 1, the error report: an Init answers OK exactly when it leaves the "last Init failed" flag clear,
+   it always leaves the manager Ready and never touches the store; if it answers OK (store open) every record is served. *)
+Theorem C17_init_reports_unrestored :
+  forall g e os c k sc, let s := exec (init g e) os in
+    let s' := fst (step s (Init c k sc)) in
+    let r := fst (snd (step s (Init c k sc))) in
+    stat s' = Ready /\ store s' = store s /\ (r = ROk <-> ierr s' = false)
+    /\ (closed s = false -> r = ROk -> forall m, recorded s m -> serving s' m).
+Proof.
+  intros g e os c k sc s s' r.
+  destruct (init_facts s c k sc (reach_inv g e os)) as (A & B & _ & D & _).
+  split; [exact A|]. split; [exact B|]. split; [exact D|].
+  intros Cl Hr. exact (init_ok_all_served s c k sc (reach_inv g e os) Cl Hr).
+Qed.
+Print Assumptions C17_init_reports_unrestored.
+
+(* Clause 1, "at most those whose restoration failed during the last initialisation": the set of records that
+   are not served never grows, except across a manager restart (where nothing is served until the next Init);
+   so between two Inits it is a subset of what the last Init left unrestored. *)
+Theorem C17_unrestored_only_shrinks :
+  forall g e os o, let s := exec (init g e) os in
+    is_restart o = false ->
+    forall m, recorded (fst (step s o)) m -> ~ tracked (fst (step s o)) m -> recorded s m /\ ~ tracked s m.
+Proof. intros g e os o s. exact (unrestored_shrinks s o (reach_inv g e os)). Qed.
+Print Assumptions C17_unrestored_only_shrinks.
+
+(* The manager's table is the truth about its filesystems: m has an owner iff some instance serves m; the owner
+   serves it exactly once and no other instance serves it (no mountpoint is ever mounted twice). *)
+Theorem C17_owner_serves_alone :
+  forall g e os m, let s := exec (init g e) os in
+    (tracked s m <-> serving s m)
+    /\ (forall i, find (fsmap s) m = Some i ->
+          i < length (insts s) /\ occ m (mnt_of s i) = 1 /\ forall j, j <> i -> occ m (mnt_of s j) = 0)
+    /\ (forall i, 0 < occ m (mnt_of s i) -> find (fsmap s) m = Some i).
+Proof.
+  intros g e os m s. split; [exact (tracked_serving s m (reach_inv g e os))|]. split.
+  - intros i. exact (owner_serves s m i (reach_inv g e os)).
+  - intros i H. exact (proj1 (owner_unique s m i (reach_inv g e os) H)).
+Qed.
+Print Assumptions C17_owner_serves_alone.
+
+(* Clause 2a. Re-initialisation (Init on a live manager, any outcome): every existing mount keeps its owner, every
+   backend call Init makes is a Mount on the instance it has just built, of a recorded mountpoint that was NOT
+   mounted, with its recorded labels. More generally an owner changes only by a successful Unmount of that
+   mountpoint or a manager restart. *)
+Theorem C17_reinit_keeps_owners :
+  forall g e os c k sc, let s := exec (init g e) os in
+    let s' := fst (step s (Init c k sc)) in
+    (forall m i, find (fsmap s) m = Some i -> find (fsmap s') m = Some i)
+    /\ (forall cl, In cl (snd (snd (step s (Init c k sc)))) ->
+          exists m l c0, cl = (length (insts s), KMount, m, l)
+                         /\ find (store s) m = Some (l, c0) /\ find (fsmap s) m = None).
+Proof.
+  intros g e os c k sc s s'.
+  destruct (init_facts s c k sc (reach_inv g e os)) as (_ & _ & _ & _ & E & F & _). exact (conj E F).
+Qed.
+Print Assumptions C17_reinit_keeps_owners.
+
+Theorem C17_owner_stable :
+  forall s o m i, find (fsmap s) m = Some i -> is_restart o = false -> o <> Unmount m true ->
+    find (fsmap (fst (step s o))) m = Some i.
+Proof. exact owner_stable. Qed.
+Print Assumptions C17_owner_stable.
+
+(* Clause 2b. Check and Unmount of a mounted mountpoint reach its owner (the instance that mounted it, by
+   C17_owner_serves_alone) and nothing else. *)
+Theorem C17_check_unmount_by_owner :
+  forall s m l ok i, stat s = Ready -> find (fsmap s) m = Some i ->
+    snd (step s (Check m l ok)) = (if ok then ROk else RErr, [(i, KCheck, m, l)])
+    /\ snd (step s (Unmount m ok)) = (if ok then ROk else RErr, [(i, KUnmount, m, 0)]).
+Proof.
+  intros s m l ok i R F. split; [now rewrite (check_by_owner s m l ok i R F)|exact (unmount_by_owner s m ok i R F)].
+Qed.
+Print Assumptions C17_check_unmount_by_owner.
+
+(* Clause 2c. After an Init with configuration c that answered OK, and any later requests (no further Init or
+   restart), a new mount goes to the instance built by that Init, which was built from c, and is recorded with the
+   request's labels and c. *)
+Theorem C17_new_mounts_use_new_config :
+  forall g e os c k sc os' m l,
+    let s := exec (init g e) os in
+    let n := length (insts s) in
+    let s2 := exec (fst (step s (Init c k sc))) os' in
+    fst (snd (step s (Init c k sc))) = ROk -> forallb quiet os' = true ->
+    stat s2 = Ready -> find (fsmap s2) m = None ->
+    cfg_of s2 n = Some c
+    /\ snd (step s2 (Mount m l true)) = (ROk, [(n, KMount, m, l)])
+    /\ find (fsmap (fst (step s2 (Mount m l true)))) m = Some n
+    /\ (closed s2 = false -> find (store (fst (step s2 (Mount m l true)))) m = Some (l, c)).
+Proof.
+  intros g e os c k sc os' m l s n s2 Hr Q R F.
+  destruct (init_facts s c k sc (reach_inv g e os)) as (_ & _ & _ & _ & _ & _ & G).
+  destruct (G Hr) as (_ & Cu & Cf & Co).
+  destruct (quiet_exec os' _ n c Q Co) as (Cu' & Cf' & Co').
+  split; [exact Co'|].
+  exact (mount_new s2 m l n c R F (eq_trans Cu' Cu) (eq_trans Cf' Cf)).
+Qed.
+Print Assumptions C17_new_mounts_use_new_config.
+
+(* Clause 3. Manager restart with the store kept, then Init: the store is unchanged; the backend calls are Mounts on
+   the new instance of a prefix of the records in store order, each with its recorded labels; if Init answers OK
+   they are all the records, and every recorded mountpoint is owned and served by the new instance (built from
+   the Init's configuration) with its recorded labels. *)
+Theorem C17_restart_remounts :
+  forall g e os c sc, let s := exec (init g e) os in
+    closed s = false ->
+    let s0 := fst (step s Restart) in
+    let n := length (insts s) in
+    let s1 := fst (step s0 (Init c IRun sc)) in
+    let r := fst (snd (step s0 (Init c IRun sc))) in
+    let cs := snd (snd (step s0 (Init c IRun sc))) in
+    store s1 = store s
+    /\ (exists k, cs = firstn k (map (rcall n) (store s)))
+    /\ (r = ROk -> cs = map (rcall n) (store s)
+                 /\ forall m l c0, find (store s) m = Some (l, c0) ->
+                      find (fsmap s1) m = Some n /\ In (m, l) (mnt_of s1 n) /\ cfg_of s1 n = Some c).
+Proof. intros g e os c sc s. exact (restart_init s c sc (reach_inv g e os)). Qed.
+Print Assumptions C17_restart_remounts.
+
+(* Clause 4a. Unmounting a mountpoint that no instance serves and the kernel does not list succeeds, calls no
+   filesystem and changes nothing (in particular when it is not recorded either). *)
+Theorem C17_unmount_unknown_ok :
+  forall g e os m ok, let s := exec (init g e) os in
+    stat s = Ready -> ~ serving s m -> ~ In m e ->
+    step s (Unmount m ok) = (s, (ROk, [])).
+Proof.
+  intros g e os m ok s R NS NE. apply (unmount_unknown s m ok (reach_inv g e os) R NS).
+  unfold s. now rewrite (proj2 (exec_consts os (init g e))).
+Qed.
+Print Assumptions C17_unmount_unknown_ok.
+
+(* Clause 4b. Requests before initialisation fail: a manager that is not Ready answers every Mount/Check/Unmount
+   with an error, calls no filesystem and changes nothing; a fresh or restarted manager is not Ready until an Init. *)
+Theorem C17_gate_before_init :
+  (forall s o, stat s <> Ready -> is_request o = true -> step s o = (s, (RErr, [])))
+  /\ (forall g e os os', forallb (fun o => negb (is_init o)) os' = true ->
+        stat (exec (init g e) os') <> Ready
+        /\ stat (exec (fst (step (exec (init g e) os) Restart)) os') <> Ready).
+Proof.
+  split; [exact gate|]. intros g e os os' H.
+  split; apply not_ready_until_init; try exact H; cbn; discriminate.
+Qed.
+Print Assumptions C17_gate_before_init.
+
+(* F19 (repaired by patches/C17-fix-1.diff): in the repaired code no request ever dereferences a nil filesystem
+   or a nil config, whatever Inits failed before it. *)
+Theorem C17_no_nil_dereference :
+  forall e os o, fst (snd (step (exec (init true e) os) o)) <> RPanic.
+Proof.
+  intros e os o. apply no_panic_step; [apply reach_inv|].
+  now rewrite (proj1 (exec_consts os (init true e))).
+Qed.
+Print Assumptions C17_no_nil_dereference.
+
+(* ... and the code as found does: a failed first Init leaves the manager Ready without a filesystem. *)
+Theorem C17_no_nil_dereference_refuted_without_fix :
+  exists os o, fst (snd (step (exec (init false []) os) o)) = RPanic.
+Proof. exists [Init 0 IFsFail []], (Mount 1 1 true). vm_compute. reflexivity. Qed.
+Print Assumptions C17_no_nil_dereference_refuted_without_fix.
+
+(* ---- non-vacuity ---- *)
+(* snapshotter restart with live mounts and a new configuration, then manager restart with a failing restore:
+   mounts 1,2 made under config 0 by instance 0; re-Init with config 1 builds instance 1 and mounts nothing;
+   mount 3 goes to instance 1 and is recorded with config 1; after the restart Init restores 1, fails on 2,
+   reports the error; records 2 and 3 are left unserved. *)
+Example C17_nonvacuous_reinit_restart :
+  let s := exec (init true [0]) [Init 0 IRun []; Mount 1 1 true; Mount 2 2 true; Init 1 IRun []; Mount 3 3 true] in
+  fsmap s = [(1, 0); (2, 0); (3, 1)] /\ store s = [(1, (1, 0)); (2, (2, 0)); (3, (3, 1))]
+  /\ stat s = Ready /\ ierr s = false /\ closed s = false /\ serving s 3 /\ recorded s 3
+  /\ (let s1 := fst (step (fst (step s Restart)) (Init 2 IRun [true; false])) in
+      fst (snd (step (fst (step s Restart)) (Init 2 IRun [true; false]))) = RErr
+      /\ fsmap s1 = [(1, 2)] /\ ierr s1 = true /\ recorded s1 2 /\ ~ tracked s1 2 /\ mnt_of s1 2 = [(1, 1)]).
+Proof.
+  vm_compute. repeat split; try discriminate.
+  - exists 1. vm_compute. auto.
+  - intros H; now apply H.
+Qed.
+
+(* hypotheses of C17_new_mounts_use_new_config and C17_restart_remounts (OK case) are satisfiable *)
+Example C17_nonvacuous_ok_cases :
+  let s := exec (init true [0]) [Init 0 IRun []; Mount 1 1 true] in
+  fst (snd (step s (Init 1 IRun []))) = ROk
+  /\ stat (exec (fst (step s (Init 1 IRun []))) [Check 1 1 true]) = Ready
+  /\ find (fsmap (exec (fst (step s (Init 1 IRun []))) [Check 1 1 true])) 2 = None
+  /\ closed s = false
+  /\ fst (snd (step (fst (step s Restart)) (Init 2 IRun []))) = ROk
+  /\ snd (snd (step (fst (step s Restart)) (Init 2 IRun []))) = [(1, KMount, 1, 1)].
+Proof. vm_compute. repeat split. Qed.
